@@ -5,6 +5,7 @@ import (
 	"fmt"
 	"sort"
 	"sync"
+	"sync/atomic"
 	"testing"
 	"time"
 
@@ -278,6 +279,49 @@ func TestC16Entry(t *testing.T) {
 							return lab.Failf("entry-values", "attribute %q value %d differs", a.Name, k)
 						}
 					}
+				}
+			}
+			// the same holds when several goroutines build their own entries at the same time
+			if len(m) >= 2 {
+				var wgc sync.WaitGroup
+				var cfail atomic.Value
+				for g := 0; g < 4; g++ {
+					wgc.Add(1)
+					go func(g int) {
+						defer wgc.Done()
+						mine := map[string][]string{}
+						for k, v := range m {
+							mine[fmt.Sprintf("%s#%d", k, g)] = v
+						}
+						var want []string
+						for k := range mine {
+							want = append(want, k)
+						}
+						sort.Strings(want)
+						for rep := 0; rep < 40; rep++ {
+							site, val, _ := guard(func() {
+								e := gldap.NewEntry("cn=x", mine)
+								if len(e.Attributes) != len(want) {
+									cfail.Store(lab.Failf("entry-order-concurrent", "NewEntry called from 4 goroutines: %d attributes for %d names", len(e.Attributes), len(want)))
+									return
+								}
+								for j, a := range e.Attributes {
+									if a.Name != want[j] || len(a.Values) != len(mine[want[j]]) {
+										cfail.Store(lab.Failf("entry-order-concurrent", "NewEntry called from 4 goroutines at once: attribute %d is %q with %d values, want %q with %d values", j, a.Name, len(a.Values), want[j], len(mine[want[j]])))
+										return
+									}
+								}
+							})
+							if val != nil {
+								cfail.Store(lab.Failf("panic:"+site+":"+panicClass(val), "NewEntry panicked when called concurrently: %v", val))
+								return
+							}
+						}
+					}(g)
+				}
+				wgc.Wait()
+				if v := cfail.Load(); v != nil {
+					return v.(*lab.Fail)
 				}
 			}
 			// AddValue sequences keep Values and ByteValues equal element by element
